@@ -17,11 +17,47 @@ def classify(rec, v):
     return "C06/" + v.split(":", 1)[1].split("@")[0]
 
 
+def template_family():
+    """exhaustive small family: a gradient that inherits from an href template, for every relative
+    placement of the two (before / after / nested deeper), kind, inherited transform and target transform"""
+    docs = []
+    stops = [[0, "red"], [100, "blue"]]
+    for kind in ("linearGradient", "radialGradient"):
+        for gt in ([["translate", 3, 1]], [["translate", -2, 2], ["scale", 2, 1, 1]], [["scale", 1, 1, 2]]):
+            for placement in ("before", "after", "template-deeper", "user-deeper"):
+                for shape_tf in ([], [["translate", 0, 4]]):
+                    if kind == "linearGradient":
+                        tat = [["gradientUnits", "userSpaceOnUse", 0], ["x1", [2, 1, 0], 0], ["y1", [3, 1, 0], 0],
+                               ["x2", [12, 1, 0], 0], ["y2", [9, 1, 0], 0], ["gradientTransform", gt, 0]]
+                        dat = [["x1", [4, 1, 0], 0], ["y2", [3, 1, 0], 0]]
+                    else:
+                        tat = [["gradientUnits", "userSpaceOnUse", 0], ["cx", [8, 1, 0], 0], ["cy", [7, 1, 0], 0],
+                               ["r", [6, 1, 0], 0], ["gradientTransform", gt, 0]]
+                        dat = [["cx", [6, 1, 0], 0]]
+                    T = {"d": 1, "tag": kind, "id": "t", "at": tat, "g": stops, "ref": ""}
+                    U = {"d": 1, "tag": kind, "id": "u", "at": dat, "g": [], "ref": "t"}
+                    G = {"d": 1, "tag": "g", "id": "", "at": [], "g": [], "ref": ""}
+                    if placement == "before":
+                        head = [T, U]
+                    elif placement == "after":
+                        head = [U, T]
+                    elif placement == "template-deeper":
+                        head = [G, dict(T, d=2), U]
+                    else:
+                        head = [T, G, dict(U, d=2)]
+                    rect = {"d": 1, "tag": "rect", "id": "", "g": [2, 2, 11, 9, -1, -1], "ref": "",
+                            "at": [["fill", "url(#u)", 0], ["fillref", "u", 0]] +
+                                  ([["transform", shape_tf, 0]] if shape_tf else [])}
+                    docs.append({"vb": [0, 0, 16, 16], "view": [0, 0, 16, 16], "root": [], "nodes": head + [rect]})
+    return docs
+
+
 def run(out, tier):
     wd = common.workdir("c06")
     try:
         recs, texts, verdicts = render.run_render(out, "C06", "grad", tier, 1600, 12000, wd=wd, max_nodes=7,
-                                                  keep=no_stroke_no_clip, module="TraceGrad", cfg="TraceGrad.cfg")
+                                                  keep=no_stroke_no_clip, module="TraceGrad", cfg="TraceGrad.cfg",
+                                                  extra_docs=template_family())
         cov = out.coverage
         cov["distinct_nontrivial"] = cov["parts"]["verdict_histogram"].get("ok:gradient", 0)
         cov["rule"] = ("documents drawn by TLC -simulate from Build.tla (Focus=grad: linear and radial gradients "
